@@ -20,6 +20,13 @@ def run_one(b, pids):
         env = dict(os.environ, VERIF_REPO=d + "/repo", VERIF_EVIDENCE_DIR=d + "/ev")
         facts = d + "/facts"
         first = True
+        if b.get("props"):
+            for pid in b["props"]:
+                r = subprocess.run([os.path.join(VERIF, "check"), pid, "--tier", "quick"], env=env, stdout=subprocess.PIPE, stderr=subprocess.STDOUT, text=True, cwd=VERIF)
+                if r.returncode != 0:
+                    keys = [l.strip()[:260] for l in r.stdout.splitlines() if l.startswith("  " + pid) or "facts unavailable" in l or "Traceback" in l]
+                    out.append("%s: %s" % (pid, keys[:3]))
+            return b, out
         for pid in pids:
             # one extraction per edit (the first check dumps the facts, the others reuse them: all engine scope)
             extra = ["--dump-facts", facts] if first else ["--facts", facts]
